@@ -83,28 +83,37 @@ static const long kN = 0;
 #define C16S_FLAT 1
 #endif
 
-// single pass input iterator over an array
+// single pass input iterator over an array, with the semantics of std::istream_iterator: all copies share ONE position
+// (advancing any copy consumes the source for all of them), each iterator object keeps designating the element it read
+struct InShared {
+  const E *base;
+  size_t pos, n;
+};
 struct InIt {
   typedef std::input_iterator_tag iterator_category;
   typedef E value_type;
   typedef std::ptrdiff_t difference_type;
   typedef const E *pointer;
   typedef const E &reference;
-  const E *p;
-  explicit InIt(const E *q) : p(q) {}
-  reference operator*() const { return *p; }
-  pointer operator->() const { return p; }
+  InShared *s;
+  const E *val;
+  bool end;
+  InIt(InShared *sh, bool e) : s(sh), val(sh->base + (sh->pos < sh->n ? sh->pos : 0)), end(e) {}
+  reference operator*() const { return *val; }
+  pointer operator->() const { return val; }
   InIt &operator++() {
-    ++p;
+    ++s->pos;
+    val = s->base + (s->pos < s->n ? s->pos : 0);
     return *this;
   }
   InIt operator++(int) {
     InIt t(*this);
-    ++p;
+    ++*this;
     return t;
   }
-  friend bool operator==(InIt a, InIt b) { return a.p == b.p; }
-  friend bool operator!=(InIt a, InIt b) { return a.p != b.p; }
+  bool atEnd() const { return end || s->pos >= s->n; }
+  friend bool operator==(const InIt &a, const InIt &b) { return a.atEnd() == b.atEnd(); }
+  friend bool operator!=(const InIt &a, const InIt &b) { return a.atEnd() != b.atEnd(); }
 };
 
 struct Label {
@@ -150,6 +159,8 @@ static void exec(const Label &lb, Result &r) {
   for (size_t i = 0; i < lb.vs.size(); ++i) src.push_back(E(lb.vs[i]));
   const E *sb = src.empty() ? static_cast<const E *>(0) : &src[0];
   const E *se = sb + src.size();
+  static const E kNone(0);
+  InShared ish = {sb ? sb : &kNone, 0, src.size()};
   bool input = lb.it == "input";
   if (op.compare(0, 4, "ctor") == 0) {
     void *w = fresh();
@@ -157,7 +168,7 @@ static void exec(const Label &lb, Result &r) {
       if (op == "ctorDefault")
         g_slot[c] = new (w) T(Cmp(lb.cm));
       else if (op == "ctorRange")
-        g_slot[c] = input ? new (w) T(InIt(sb), InIt(se), Cmp(lb.cm)) : new (w) T(sb, se, Cmp(lb.cm));
+        g_slot[c] = input ? new (w) T(InIt(&ish, false), InIt(&ish, true), Cmp(lb.cm)) : new (w) T(sb, se, Cmp(lb.cm));
       else if (op == "ctorIlist") {
         if (src.size() == 0)
           g_slot[c] = new (w) T(std::initializer_list<E>(), Cmp(lb.cm));
@@ -230,7 +241,7 @@ static void exec(const Label &lb, Result &r) {
     r.it(posOf(cv, v.emplace_hint(h, lb.v)));
   } else if (op == "insertRange") {
     if (input)
-      v.insert(InIt(sb), InIt(se));
+      v.insert(InIt(&ish, false), InIt(&ish, true));
     else
       v.insert(sb, se);
   } else if (op == "insertIlist") {
